@@ -16,9 +16,9 @@ CLAIM = ("Grammars are assembled around one planted located mistake or warning (
          "line / byte column / text computed from the recorded offset. Every span of the parse tree and every parse-error location is "
          "compared exactly with the Lean parser model (Model/Parse.lean: positions as nom_locate tracks them) on every case. Proved over the position bookkeeping of the parser model (Props/C13.lean, Proofs/Position.lean): adv_position / "
          "init_position — after consuming any text the location is (line + line feeds consumed, 1 + bytes after the last line feed) — "
-         "plus additivity, monotonicity and fromRange_start. span_sound_ladder (Proofs/LadderSpans.lean): span soundness itself on the operator ladder — when the printed form of any expression tree over literals, nonterminals, commands, juxtaposition by blanks, |, ||, [ ], postfix ... and parentheses stands anywhere in a file, the parser model returns that tree and every node of it, in preorder, carries the span starting at line 1 + (line feeds before) and byte column 1 + (bytes since the last line feed) of the offset of the first character of that node's own text, the characters between the node's two offsets being the printed form of that node (parentheses forced by the context excluded, as parenthesized_expr returns the inner node). Outside the fragment (descriptions, escapes, statement heads, layout between items) span soundness is decided per grammar by the exact comparison of all spans.")
+         "plus additivity, monotonicity and fromRange_start. span_sound_ladder (Proofs/LadderSpans.lean): span soundness itself on the operator ladder — when the printed form of any expression tree over literals, nonterminals, commands, juxtaposition by blanks, |, ||, [ ], postfix ... and parentheses stands anywhere in a file, the parser model returns that tree and every node of it, in preorder, carries the span starting at line 1 + (line feeds before) and byte column 1 + (bytes since the last line feed) of the offset of the first character of that node's own text, the characters between the node's two offsets being the printed form of that node (parentheses forced by the context excluded, as parenthesized_expr returns the inner node). span_sound_full / span_sound_file (Proofs/SpansFull.lean, SpansFile.lean): the same for the larger fragment (escaped literals, descriptions — the span of a described literal covers literal, layout and description; `( … ) \"d\"` starts at the parenthesis — and words by juxtaposition), under every admissible layout, and for whole files through the model of Grammar::parse: the spans of command names, definition heads, shell names and of every expression node start at the line / byte column of the first character of their own text. Outside these fragments span soundness is decided per grammar by the exact comparison of all spans.")
 NOTE = ("Columns are byte columns (nom_locate's get_column), as DESIGN.md §3 C13 states; non-ASCII text is only placed on lines before the "
-        "planted token. Trusted: the generator's offset bookkeeping, the regex reading diagnostics. Open: span_sound outside the ladder fragment; diag_points_at (which span each diagnostic picks) is decided by the planted-offset oracle.")
+        "planted token. Trusted: the generator's offset bookkeeping, the regex reading diagnostics. Open: span_sound outside the proved fragment (commands containing `}`, redundant parentheses); diag_points_at (which span each diagnostic picks) is decided by the planted-offset oracle.")
 TECHNIQUE = "planted offsets against the real binary's diagnostics + exact span correspondence with the Lean parser model"
 DESIGN_REF = "§3 C13"
 
